@@ -337,6 +337,11 @@ def run_case(case: Any, pid: str) -> Verdict:
             # still start-up (bounded: two ticks after the error), not judged
             if je == j and ke <= fb_from[j]:
                 blind |= {ke, ke + 1, ke + 2}
+    for (je, ke) in fb_errors:
+        # both sources of a term raise at the same tick (primary closed or raising, fallback raising): the round is
+        # dropped and the next one re-synchronises, like for a closed stream without a delivering fallback
+        if (je, ke) in errors or (close is not None and close[0] == je and ke >= close[1]):
+            blind |= {ke, ke + 1}
     by_tick: dict[int, list[Any]] = {}
     for s in outputs:
         k = (s.timestamp - world.T0).total_seconds()
